@@ -46,6 +46,8 @@ class Contract:
         self.note = kw.get('note', '')
         self.setup = kw.get('setup')                   # optional python callable(ex, st, args) for ghost set-up
         self.kind = kw.get('kind', 'method')
+        self.fresh_self = kw.get('fresh_self', False)  # constructor task: no field of self is assigned at entry
+        self.ghost_results = kw.get('ghost_results')   # {ghost local: type} mentioned by ensures (modular use)
 
 
 class LoopSpec:
